@@ -37,6 +37,14 @@ Definition seq_children (f : tree -> tree * bool) : ents -> ents * bool :=
         if okc then let '(r', ok) := go r in ((key, c') :: r', ok) else ((key, c') :: r, false)
     end.
 
+(* `for x in xs: <one call on self, may raise>`: the first failure stops the loop, earlier effects stay *)
+Definition seq_steps {A : Type} (f : A -> tree -> tree * outcome) : list A -> tree -> tree * outcome :=
+  fix go (l : list A) (self : tree) : tree * outcome :=
+    match l with
+    | [] => (self, Done)
+    | a :: r => let '(s', o) := f a self in match o with Done => go r s' | _ => (s', o) end
+    end.
+
 (* ================================================================ names ================================ *)
 Fixpoint count_none (l : list (option string)) : nat :=
   match l with [] => 0 | None :: r => S (count_none r) | Some _ :: r => count_none r end.
@@ -510,22 +518,18 @@ Fixpoint upd_t (src : tree) (ip : bool) (self : tree) {struct src} : tree * outc
   | Node _ sbs _ _ ses, Node KTd bs _ _ _ =>
       if negb (shape_eqb (firstn (List.length sbs) bs) (firstn (List.length bs) sbs)) then (self, Raised)
       else
-        (fix go (items : ents) (self : tree) : tree * outcome :=
-           match items with
-           | [] => (self, Done)
-           | (k, c) :: r =>
-               let '(self', o) :=
-                 match self with
-                 | Node KTd bs dv nm es =>
-                     match aget k es, c with
-                     | Some (Node KTd tb td tn te), Node KTd _ _ _ _ =>
-                         let '(t', o) := upd_t c ip (Node KTd tb td tn te) in (Node KTd bs dv nm (aset k t' es), o)
-                     | _, _ => set_tuple [k] (VTree c) (if ip then IBest else INo) self
-                     end
-                 | _ => (self, Unmodelled)
-                 end in
-               match o with Done => go r self' | _ => (self', o) end
-           end) ses self
+        seq_steps
+          (fun (kc : string * tree) (self : tree) =>
+             let '(k, c) := kc in
+             match self with
+             | Node KTd bs dv nm es =>
+                 match aget k es, c with
+                 | Some (Node KTd tb td tn te), Node KTd _ _ _ _ =>
+                     let '(t', o) := upd_t c ip (Node KTd tb td tn te) in (Node KTd bs dv nm (aset k t' es), o)
+                 | _, _ => set_tuple [k] (VTree c) (if ip then IBest else INo) self
+                 end
+             | _ => (self, Unmodelled)
+             end) ses self
   | _, _ => (self, Unmodelled)
   end.
 
@@ -534,24 +538,20 @@ Fixpoint upd_v (v : value) (ip : bool) (self : tree) {struct v} : tree * outcome
   | VTree t => upd_t t ip self
   | VStr => (self, Unmodelled)
   | VDict items =>
-      (fix go (items : list (string * value)) (self : tree) : tree * outcome :=
-         match items with
-         | [] => (self, Done)
-         | (k, vi) :: r =>
-             let '(self', o) :=
-               match self with
-               | Node KTd bs dv nm es =>
-                   match aget k es, vi with
-                   | Some (Node KTd tb td tn te), VDict _ =>
-                       let '(t', o) := upd_v vi ip (Node KTd tb td tn te) in (Node KTd bs dv nm (aset k t' es), o)
-                   | Some (Node KTd tb td tn te), VTree (Node KTd sb sd sn se) =>
-                       let '(t', o) := upd_t (Node KTd sb sd sn se) ip (Node KTd tb td tn te) in (Node KTd bs dv nm (aset k t' es), o)
-                   | _, _ => set_tuple [k] vi (if ip then IBest else INo) self
-                   end
-               | _ => (self, Unmodelled)
-               end in
-             match o with Done => go r self' | _ => (self', o) end
-         end) items self
+      seq_steps
+        (fun (kv : string * value) (self : tree) =>
+           let '(k, vi) := kv in
+           match self with
+           | Node KTd bs dv nm es =>
+               match aget k es, vi with
+               | Some (Node KTd tb td tn te), VDict _ =>
+                   let '(t', o) := upd_v vi ip (Node KTd tb td tn te) in (Node KTd bs dv nm (aset k t' es), o)
+               | Some (Node KTd tb td tn te), VTree (Node KTd sb sd sn se) =>
+                   let '(t', o) := upd_t (Node KTd sb sd sn se) ip (Node KTd tb td tn te) in (Node KTd bs dv nm (aset k t' es), o)
+               | _, _ => set_tuple [k] vi (if ip then IBest else INo) self
+               end
+           | _ => (self, Unmodelled)
+           end) items self
   end.
 
 (* ================================================================ select / exclude / flatten ... ======= *)
@@ -683,14 +683,7 @@ Definition flatten_in (sep : string) (self : tree) : tree * outcome :=
       if Nat.ltb (sset_len flat) (List.length leaves) then (self, Raised)
       else
         let root_keys := map fst es in
-        let '(s1, o1) :=
-          (fix go (l : list (list string)) (self : tree) : tree * outcome :=
-             match l with
-             | [] => (self, Done)
-             | p :: r =>
-                 let '(s', o) := rename_key p [C04_Tree.join sep p] false self in
-                 match o with Done => go r s' | _ => (s', o) end
-             end) leaves self in
+        let '(s1, o1) := seq_steps (fun p self => rename_key p [C04_Tree.join sep p] false self) leaves self in
         match o1 with
         | Done => exclude_in (S (depth s1)) (map (fun k => [k]) root_keys) s1
         | _ => (s1, o1)
@@ -705,15 +698,9 @@ Definition unflatten_in (sep : string) (self : tree) : tree * outcome :=
       match sep with
       | EmptyString => (self, Unmodelled)
       | _ =>
-          (fix go (keys : list string) (self : tree) : tree * outcome :=
-             match keys with
-             | [] => (self, Done)
-             | k :: r =>
-                 if C04_Tree.str_contains sep k then
-                   let '(s', o) := rename_key [k] (C04_Tree.split sep k) true self in
-                   match o with Done => go r s' | _ => (s', o) end
-                 else go r self
-             end) (map fst es) self
+          seq_steps
+            (fun k self => if C04_Tree.str_contains sep k then rename_key [k] (C04_Tree.split sep k) true self else (self, Done))
+            (map fst es) self
       end
   | _ => (self, Unmodelled)
   end.
